@@ -7,7 +7,7 @@ from vf.engine import Violation, InvalidCase
 from vf.fixtures import CompA, CompB, CompC, CompD, CompF, check, expect_raises, sized_lists, wone_of
 
 PROPERTY = "C20"
-BUDGET = {"quick": 2000, "thorough": 5000}
+BUDGET = {"quick": 4000, "thorough": 12000}
 RULE = ("A fresh class tree per case (2-7 classes created with type() under Agent / Environment / SpaceWorld: siblings, "
         "2-3 levels; further subclasses are created MID-history, after their ancestors were modified); in ~25% of cases the shared Agent and Environment classes are mutated too (restored afterwards). "
         "History (1-30 ops) of add/remove_class_component, Cls.tag = v, instance creation with/without explicit tag "
